@@ -233,7 +233,7 @@ def rule_flatten(ctx):
     tab = [e for p in ev.paths for e in p.calls('array') if T.dotted(e.a[1]) in ('np.array', 'np.asarray') and any(x[0] == 'call' and T.dotted(x[1]) == 'zip' for x in T.subterms(e.a))]
     if tab:
         dt = T.kw(tab[0].a, 'dtype')
-        keeps = dt is not None and (dt in (('name', 'object'), const('O'), const('object')) or (dt[0] == 'ifexp' and ('name', 'object') in (dt[2], dt[3])))
+        keeps = dt is not None and (dt in (('name', 'object'), const('O'), const('object')) or (dt[0] == 'ifexp' and ('name', 'object') in (dt[2], dt[3])) or (dt[0] == 'phi' and ('name', 'object') in dt[1]))
         if keeps:
             ctx.holds('R1', '_flatten: label tuples kept as objects when the member kinds differ')
         else:
